@@ -263,7 +263,9 @@ PLAN["C06"] = {
                 inst("c06_whole2", unwind=10, stubs="alloc+absmove-or-indicator", cap=5400) + inst("c06_whole3", [(3, "none"), (3, "pull"), (3, "push")], unwind=14, stubs="alloc+indicator+upto3", cap=7200) +
                 hs(["c05_passing_like_s3_%s" % k for k in ("none", "pull", "push")], unwind=8, stubs="alloc+absmove"),
     "bounds": "private filter: all boards, arbitrary 2-entry lists (steps or pass), history of 6 arbitrary entries; whole functions: boards with <= 1 piece (quick) / <= 2, <= 3 at step 3 (thorough), history of 4 arbitrary entries",
-    "outside": "whole-function list relation on boards with more pieces (the filter is applied entry-wise by Vec::retain; decided on arbitrary lists through the hook)",
+    "outside": ("whole-function list relation on boards with more pieces (the filter is applied entry-wise by Vec::retain; decided on arbitrary lists through the hook); "
+                "known gap: a seeded change that applies the filter without its guard in the push-completion branch (seeded/C06-b) makes the push-pending whole-function "
+                "harness end without a verdict (exit 2) instead of a reproduced violation"),
     "stubs": ALLOC_STUBS + "; " + ABS_NOTE + "; " + IND_NOTE + " (the list relation is table-independent)",
     "assumptions": [INV_RULES, COLLISION],
 }
